@@ -31,7 +31,9 @@ class StateInfo:
         return tuple(sorted(self.fid))
 
 
-def check_recipe(recipe, U, envs, part, pid, extra_check=None, tol=None, describe=None, compare=True, ill_typed_hook=None):
+def check_recipe(
+    recipe, U, envs, part, pid, extra_check=None, tol=None, describe=None, compare=True, ill_typed_hook=None, check_undefined=False
+):
     """Type by L, build on the real API, compare in every environment.
 
     Returns (StateInfo-tuple or None). Violations are recorded in `part`.
@@ -102,7 +104,15 @@ def check_recipe(recipe, U, envs, part, pid, extra_check=None, tol=None, describ
             if n is None:
                 return None
             fid[n] = d
-        return (recipe, tuple(obj.ufl_shape), fid, False, key, False)
+        from ufl.classes import Condition
+
+        if extra_check is not None and check_undefined:
+            # the recipe has no model value in any environment (e.g. an ordering of complex numbers): the
+            # driver's own oracle may still have something to say about what the implementation does with it
+            part.count("undefined_state_checked")
+            if extra_check(recipe, obj, lts, ctxs, envs, part, U) == "VIOLATION":
+                return ("VIOLATION", recipe)
+        return (recipe, tuple(obj.ufl_shape), fid, isinstance(obj, Condition), key, False)
     # 3. compare
     nontrivial = False
     for env, ctx, lt in zip(envs, ctxs, lts):
@@ -155,14 +165,18 @@ def check_recipe(recipe, U, envs, part, pid, extra_check=None, tol=None, describ
     return (recipe, lt0.shape, lt0.fid, lt0.cond, key, nontrivial)
 
 
-def run_level(recipes, U, envs, pid, run, seed=0, extra_check=None, tol=None, sample_every=0, compare=True, ill_typed_hook=None):
+def run_level(
+    recipes, U, envs, pid, run, seed=0, extra_check=None, tol=None, sample_every=0, compare=True, ill_typed_hook=None, check_undefined=False
+):
     """Check a list of candidate recipes in parallel; returns list of new state tuples."""
 
     def work(chunk):
         part = Part()
         out = []
         for r in chunk:
-            res = check_recipe(r, U, envs, part, pid, extra_check, tol, compare=compare, ill_typed_hook=ill_typed_hook)
+            res = check_recipe(
+                r, U, envs, part, pid, extra_check, tol, compare=compare, ill_typed_hook=ill_typed_hook, check_undefined=check_undefined
+            )
             if res is None:
                 continue
             if res[0] == "VIOLATION":
